@@ -965,10 +965,42 @@ pub fn run_real(p: &Program, fault: Option<Fault>, snaps: bool, clone_config: bo
 }
 
 /// First difference between expected and actual trace, rendered for a violation message.
+fn close_bits(a: u64, b: u64) -> bool {
+    if a == b {
+        return true;
+    }
+    let (x, y) = (f64::from_bits(a), f64::from_bits(b));
+    (x.is_nan() && y.is_nan()) || (x.is_finite() && y.is_finite() && (x - y).abs() <= 1e-12 * (1.0 + x.abs().max(y.abs())))
+}
+
+/// Event equality; progress values (floating point) are compared up to rounding, so that an
+/// algebraically equivalent way of computing value / n is not reported.
+pub fn ev_eq(a: &Ev, b: &Ev) -> bool {
+    match (a, b) {
+        (Ev::Eval { id: i1, value: v1, aux: a1 }, Ev::Eval { id: i2, value: v2, aux: a2 }) => {
+            i1 == i2 && v1 == v2 && match (a1, a2) {
+                (Some(x), Some(y)) => close_bits(*x, *y),
+                (None, None) => true,
+                _ => false,
+            }
+        }
+        (Ev::Snap { id: i1, levels: l1 }, Ev::Snap { id: i2, levels: l2 }) => i1 == i2 && levels_eq(l1, l2),
+        _ => a == b,
+    }
+}
+
+pub fn levels_eq(l1: &[BTreeMap<u8, u64>], l2: &[BTreeMap<u8, u64>]) -> bool {
+    l1.len() == l2.len()
+        && l1.iter().zip(l2).all(|(m1, m2)| {
+            m1.len() == m2.len()
+                && m1.iter().zip(m2.iter()).all(|((k1, v1), (k2, v2))| k1 == k2 && if (16..32).contains(k1) { close_bits(*v1, *v2) } else { v1 == v2 })
+        })
+}
+
 pub fn trace_diff(exp: &[Ev], act: &[Ev]) -> Option<String> {
     let n = exp.len().min(act.len());
     for i in 0..n {
-        if exp[i] != act[i] {
+        if !ev_eq(&exp[i], &act[i]) {
             return Some(format!(
                 "event #{i}: expected {:?}, real {:?}",
                 exp[i], act[i]
@@ -996,7 +1028,7 @@ pub fn diff_class(exp: &[Ev], act: &[Ev]) -> String {
         Ev::Eval { .. } => "condition-value".to_string(),
     };
     for i in 0..n {
-        if exp[i] != act[i] {
+        if !ev_eq(&exp[i], &act[i]) {
             return format!("trace-mismatch expected={} real={}", kind(&exp[i]), kind(&act[i]));
         }
     }
